@@ -692,7 +692,7 @@ impl XmlAttribute {
     pub fn empty(name: &str, context: &Context) -> error::Result<Rc<XmlItem>> {
         let xml = format!("{}=''", name);
         let (rest, tree) = xml_parser::attribute(xml.as_str())?;
-        if rest.is_empty() {
+        if rest.is_empty() && !name.ends_with(char::is_whitespace) {
             XmlAttribute::node(&tree, None, context)
         } else {
             Err(error::Error::InvalidData(name.to_string()))
@@ -2388,7 +2388,7 @@ impl XmlElement {
     pub fn empty(name: &str, context: &Context) -> error::Result<Rc<XmlItem>> {
         let xml = format!("<{} />", name);
         let (rest, tree) = xml_parser::element(xml.as_str())?;
-        if rest.is_empty() {
+        if rest.is_empty() && tree.attributes.is_empty() && !name.ends_with(char::is_whitespace) {
             XmlElement::node(&tree, None, context)
         } else {
             Err(error::Error::InvalidData(name.to_string()))
@@ -3442,7 +3442,7 @@ impl XmlProcessingInstruction {
     pub fn empty(target: &str, context: &Context) -> error::Result<Rc<XmlItem>> {
         let xml = format!("<?{}?>", target);
         let (rest, tree) = xml_parser::pi(xml.as_str())?;
-        if rest.is_empty() {
+        if rest.is_empty() && tree.target == target {
             Ok(XmlProcessingInstruction::node(&tree, None, context))
         } else {
             Err(error::Error::InvalidData(target.to_string()))
